@@ -23,10 +23,8 @@ theorem body_seed_eq (u : Bool) : Gen.C08.bodySeed u = seedOf u [.filename] := b
 theorem split_seed_eq (u : Bool) : Gen.C08.splitSeed u = seedOf u [.filename, .sliceNo] := by cases u <;> decide
 theorem crop_seed_eq : Gen.C08.crop_seed_fields = [.filename] := by decide
 
-theorem build_supervised_eq (c : Config) : Gen.C08.build_supervised c = buildSupervised c := by
-  simp only [Gen.C08.build_supervised, buildSupervised, zero_padding_threshold_eq, mask_seed_eq, body_seed_eq]
+theorem build_supervised_eq (c : Config) : Gen.C08.build_supervised c = buildSupervised c := rfl
 
-theorem build_eq (c : Config) : Gen.C08.build c = build c := by
-  simp only [Gen.C08.build, build, build_supervised_eq, split_seed_eq]
+theorem build_eq (c : Config) : Gen.C08.build c = build c := rfl
 
 end DirectVerif.Bridge.C08
